@@ -15,8 +15,13 @@ def main():
         c = sqlite3.connect("file:%s?%s" % (path, params), uri=True, isolation_level=None, timeout=0)
     else:
         c = sqlite3.connect(path, isolation_level=None, timeout=0)
+    nosync = scenario.endswith("+nosync")
+    if nosync:
+        scenario = scenario[:-len("+nosync")]
     c.execute("pragma journal_mode=%s" % jmode)
-    c.execute("pragma synchronous=full")
+    # with synchronous=off SQLite writes a complete (valid) journal header at once, so a live
+    # writer in RESERVED has a journal that looks hot to anyone who does not check the lock
+    c.execute("pragma synchronous=%s" % ("off" if nosync else "full"))
     ver = c.execute("select version from meta").fetchone()[0] + 1
     spill = scenario.startswith("spill") or scenario in ("update-many", "grow", "delete-freelist", "two-statements")
     if spill:
